@@ -155,6 +155,19 @@ def float_dist(rng, fmt, n):
 
 FAMS_1D = ["A", "M", "D", "N"]
 
+# multi-dimensional container families: `M2`/`M3` unlabelled MArr2/MArr3, `D2`/`D3` labelled MArrD2/MArrD3 with usize index domains,
+# `N2`/`N3` labelled with newtype index domains.  The shape is appended to the op's ordinary ints (first int = number of cells);
+# the scalar layout is the 1-D one over the row-major flattening.  Asymmetric shapes on purpose (wrong-axis plumbing faults).
+ND_SHAPES = [(1, 2), (2, 1), (2, 2), (1, 3), (3, 1), (2, 3), (3, 2),
+             (1, 2, 2), (2, 2, 1), (2, 1, 2), (2, 2, 2), (1, 2, 3), (1, 3, 2), (2, 1, 3), (3, 1, 2), (2, 2, 3)]
+
+
+def nd_family(rng, max_cells=12):
+    """(family token, shape, number of cells) of a random multi-dimensional container family"""
+    shapes = [s for s in ND_SHAPES if math.prod(s) <= max_cells]
+    sh = rng.choice(shapes)
+    return rng.choice("MDN") + str(len(sh)), list(sh), math.prod(sh)
+
 
 # ---------------------------------------------------------------- binomial
 def rand_bop(rng, den, kind=None, a_den=None):
